@@ -347,7 +347,9 @@ def check(prog: Program, res: Result, tier: str) -> None:
                 # the reviewed guard sat behind reviewed early exits (`if A and B: return ..` then `raise`): it rejects want & not(A and B).
                 # Written the other way round (`if not A or not B: raise`) there is one raise per way of missing the exit: every such case
                 # must be covered by some raise
-                exit_sets = [x for x in (_parse(a[len("exit when "):]) for a in allowed if a.startswith("exit when ")) if x and G._compatible(x, want)]
+                still_before = {x for r in list(f.raises) + list(f.delegated()) for x in r.exits_before}
+                exit_sets = [x for x in (_parse(a[len("exit when "):]) for a in allowed if a.startswith("exit when ") and a not in still_before)
+                             if x and G._compatible(x, want)]          # the reviewed exits that no longer precede a raise: moved behind it
                 if 1 <= len(exit_sets) <= 2 and all(len(x) <= 4 for x in exit_sets):
                     import itertools as _it
                     cases = []
@@ -485,13 +487,21 @@ def es_order(prog: Program, res: Result) -> None:
         n_store_paths = 0
         # names that are never re-bound: decisions on them stay true along a path
         rebound = set()
+        bound_once: Dict[str, int] = {}
+        params_ = set(fi.params())
         for n in ast.walk(fi.node):
             if isinstance(n, (ast.Assign, ast.AugAssign, ast.AnnAssign, ast.For)):
                 tg = n.targets if isinstance(n, ast.Assign) else [n.target]
                 for t in tg:
                     for x in ast.walk(t):
-                        if isinstance(x, ast.Name):
-                            rebound.add(x.id)
+                        if isinstance(x, ast.Name) and isinstance(x.ctx, ast.Store):
+                            if isinstance(n, (ast.AugAssign, ast.For)) or x.id in params_:
+                                rebound.add(x.id)
+                            bound_once[x.id] = bound_once.get(x.id, 0) + 1
+        # a local bound exactly once (flag = isinstance(value, int)) keeps its meaning along a path
+        rebound |= {k for k, v in bound_once.items() if v > 1}
+        loop_bodies = [x for n in ast.walk(fi.node) if isinstance(n, (ast.For, ast.While)) for b in n.body for x in ast.walk(b)]
+        rebound |= {x.id for x in loop_bodies if isinstance(x, ast.Name) and isinstance(x.ctx, ast.Store)}
         for items, end in paths:
             first_store = None
             known: Set[str] = set()
